@@ -1327,7 +1327,7 @@ impl<'a> G01<'a> {
                 _ => unreachable!(),
             },
             None => {
-                let nparams = self.rng.usize(4);
+                let nparams = self.rng.usize(6);
                 let rest = self.rng.chance(1, 4);
                 let ret = match self.rng.below(10) {
                     0 => Ty::Bool,
